@@ -38,6 +38,9 @@ func loadJSON(path string, v interface{}) error {
 
 // stableKinds are obligation kinds whose names do not depend on source positions.
 func stableName(o *Oblig) bool {
+	if strings.Contains(o.Name, ".go:") {
+		return false // carries a source position (inlined call site)
+	}
 	switch o.Kind {
 	case "post", "inv.init", "dec", "assert", "lemma", "pre@call", "scan":
 		return true
@@ -127,10 +130,16 @@ func cmdCheck(args []string) int {
 		writeEvidence(*prop, *tier, seed, nil, nil, []violation{{obl: "load", reason: err.Error()}}, nil, time.Since(t0).Seconds(), nil)
 		return 1
 	}
-	budget := 60
+	budget := 90
+	useCache = true
 	if *tier == "thorough" {
 		budget = 600
+		useCache = false
 	}
+	if os.Getenv("GOVC_NO_CACHE") != "" {
+		useCache = false
+	}
+	loadCache()
 	out := e.runProperty(*prop, *tier, budget)
 	// expected obligations (vacuity / disappearance guard)
 	expPath := filepath.Join(verifDir, "expected_obligations.json")
@@ -208,7 +217,10 @@ func cmdCheck(args []string) int {
 		code = 1
 	}
 	wall := time.Since(t0).Seconds()
-	writeEvidence(*prop, *tier, seed, e, out, reported, out.known, wall, nil)
+	if os.Getenv("GOVC_UPDATE_CACHE") != "" && code == 0 {
+		saveCache()
+	}
+	writeEvidence(*prop, *tier, seed, e, out, reported, out.known, wall, map[string]interface{}{"proof_cache_hits": cacheHits, "proof_cache_note": "quick tier: a query whose complete SMT script (sha256) was already answered as expected is not re-solved; thorough tier re-proves everything"})
 	nd := 0
 	for _, o := range out.obls {
 		if o.Res.Status == o.Expect {
